@@ -273,10 +273,10 @@ class _FakeDirEntry:
         return self._is_dir
 
     def is_file(self, follow_symlinks=True):
-        return not self._is_dir
+        return not self._is_dir and not self.name.endswith(".lnk")
 
     def is_symlink(self):
-        return False
+        return self.name.endswith(".lnk")  # dangling
 
     def inode(self):
         return 0
@@ -672,6 +672,8 @@ class Sim:
             return self.real_stat(path, *a, **kw)
         if self.stray(rel):
             self.log("stat", file=rel, stray=True)
+            if rel.endswith(".lnk"):  # a dangling symbolic link: it is listed, lstat works, stat does not
+                raise _oserror("ENOENT", os.fspath(path))
             return self.real_stat(self.repo if rel.endswith(".d") else self.tool)
         ov_res = self.overlay_stat(path, rel)
         if ov_res is not None:
@@ -694,6 +696,8 @@ class Sim:
             return self.real_lstat(path, *a, **kw)
         if self.stray(rel):
             self.log("lstat", file=rel, stray=True)
+            if rel.endswith(".lnk"):
+                return _SimStat(self.real_lstat(self.tool), st_mode=0o120777, st_size=11)
             return self.real_lstat(self.repo if rel.endswith(".d") else self.tool)
         ov_res = self.overlay_stat(path, rel)
         if ov_res is not None:
@@ -827,6 +831,8 @@ class Sim:
             self.log("open", file=rel, stray=True)
             if rel.endswith(".d"):
                 raise OSError(_errno.EISDIR, os.strerror(_errno.EISDIR), os.fspath(file))
+            if rel.endswith(".lnk"):
+                raise _oserror("ENOENT", os.fspath(file))
             return io.BytesIO(b"") if "b" in mode else io.StringIO("")
         first = rel not in self.opened
         if first:
